@@ -30,6 +30,24 @@ def replay(doc):
     inputs = {k: C.dec(v) for k, v in (doc.get("inputs") or {}).items() if k != "__ghost__"}
     ghost = {k: C.dec(v) for k, v in ((doc.get("inputs") or {}).get("__ghost__") or {}).items()}
     out = {"observed": None, "raised": None, "clause_value": None, "confirmed": False}
+    if "/step:" in (doc.get("obligation") or ""):
+        # a loop-body (step) obligation: the side-car may know how to drive the real loop into the solver's state
+        sr = getattr(holder, "step_replay", None)
+        if sr is None:
+            out["note"] = "loop/call-site obligation: no native replay"
+            return out, 0
+        sr = sr.__func__ if isinstance(sr, staticmethod) else sr
+        clause = None
+        for spec in con.loops.values():
+            for cl in spec.step:
+                if cl.name == doc["clause"]:
+                    clause = cl
+        res = sr(inputs, ghost, clause)
+        if res is None:
+            out["note"] = "loop/call-site obligation: the solver's loop state is not reachable through the public function"
+            return out, 0
+        out.update(res)
+        return out, 1 if out.get("confirmed") else 0
     if con.call is None:
         out["error"] = "contract has no native call()"
         return out, 3
